@@ -29,12 +29,17 @@ DTYPE_TWIN_P = 0.2
 LAYOUT_TWIN_P = 0.15
 
 
-def _layout_twin(kwargs):
+def _layout_twin(kwargs, kind="F"):
+    """kind F: every 2-D+ array in Fortran order; kind BE: every float / int array in big-endian byte order (what astropy hands
+    over for FITS data) -- same values, another memory representation"""
     import numpy as np
     tw, changed = {}, False
     for k, v in kwargs.items():
-        if isinstance(v, np.ndarray) and v.ndim >= 2 and min(v.shape[:2]) > 1 and not v.flags.f_contiguous:
+        if kind == "F" and isinstance(v, np.ndarray) and v.ndim >= 2 and min(v.shape[:2]) > 1 and not v.flags.f_contiguous:
             tw[k] = np.asfortranarray(v)
+            changed = True
+        elif kind == "BE" and isinstance(v, np.ndarray) and v.dtype.kind in "fi" and v.dtype.itemsize > 1 and v.size:
+            tw[k] = v.astype(v.dtype.newbyteorder(">"))
             changed = True
         else:
             tw[k] = v.copy() if isinstance(v, np.ndarray) else v
@@ -136,14 +141,16 @@ def run_contract_search(key, tier, seed):
         if o.status == "ok" and rng.random() < LAYOUT_TWIN_P:
             # memory-layout twin: the same values in Fortran (column-major) order -- what `m.T`, np.rot90 or np.asfortranarray hand
             # over.  Nothing in any statement depends on the layout, so every clause must hold unchanged.
-            tw = _layout_twin(kwargs)
+            kind = "F" if rng.random() < 0.6 else "BE"
+            tw = _layout_twin(kwargs, kind)
             if tw is not None:
                 o3 = rtc.run_contract(c, tw)
                 out["layout_twins"] = out.get("layout_twins", 0) + 1
-                if o3.status == "fail":
+                if o3.status == "fail" and not (kind == "BE" and str(o3.clause) == "no-exception"):
                     out["failures"].append({"inputs": rtc.to_jsonable(kwargs), "clause": o3.clause, "observed": o3.observed, "history": [],
-                                            "detail": "with every 2-D+ array argument in Fortran order (np.asfortranarray): " + str(o3.detail),
-                                            "layout": "F"})
+                                            "detail": ("with every 2-D+ array argument in Fortran order (np.asfortranarray): " if kind == "F" else
+                                                       "with every numeric array argument in big-endian byte order (x.astype('>f8')): ") + str(o3.detail),
+                                            "layout": kind})
                     if len(out["failures"]) >= 5:
                         break
         hist.append(rtc.to_jsonable(kwargs))
